@@ -150,9 +150,9 @@ type fakeSplitter struct {
 	hooks connectors.SourceSplitterHooks
 }
 
-func (s *fakeSplitter) IsSourceSplitter()                                              {}
-func (s *fakeSplitter) Close() error                                                   { return nil }
-func (s *fakeSplitter) Checkpoint() []byte                                             { return []byte("sp") }
+func (s *fakeSplitter) IsSourceSplitter()                                             {}
+func (s *fakeSplitter) Close() error                                                  { return nil }
+func (s *fakeSplitter) Checkpoint() []byte                                            { return []byte("sp") }
 func (s *fakeSplitter) NotifySplitsFinished(sourceRunnerID string, splitIDs []string) {}
 func (s *fakeSplitter) Start(ckpt *snapshotpb.SourceCheckpoint) error {
 	as := map[string][]*workerpb.SourceSplit{}
